@@ -4,9 +4,9 @@
    Reading guide.  Source / target locations are flat indices into the coordinate arrays; [vin] / [vout] are the
    validity masks ([valid_in] / [valid_out]: the four range comparisons, false on NaN); [d2 t s] is the exact squared
    geocentric chord distance between target t and source s, [r2] the squared radius of influence.  The kd-tree is an
-   ORACLE [knn]: the theorems hold for every query function meeting the contract [knn_spec_tol a b] (a/b >= 1 the
-   slack on squared distances; a = b = 1 is the exact contract [knn_spec]: "d < r => returned, d > r => not returned,
-   d = r => either").  [rows] / [mrows] are the data (one row of channel values / mask bits per source location),
+   ORACLE [knn]: the theorems hold for every query function meeting the contract [knn_spec_tol a b c] (a/b >= 1 the
+   relative and c >= 0 the absolute slack on squared distances; a = b = 1, c = 0 is the exact contract [knn_spec]:
+   "d < r => returned, d > r => not returned, d = r => either").  [rows] / [mrows] are the data (one row of channel values / mask bits per source location),
    [fill = None] is fill_value=None, [sentinel] the dtype maximum used internally for it.  A result cell is the pair
    (channel values, channel mask bits) of one target location. *)
 From Coq Require Import ZArith Bool List Lia Reals PrimFloat.
@@ -50,29 +50,30 @@ Theorem C02_nn_is_nearest_or_fill_if :
 Proof. exact (@main_exact). Qed.
 Print Assumptions C02_nn_is_nearest_or_fill_if.
 
-(* the same for a tree that is only optimal up to the slack a/b on squared distances -- the form the
-   correspondence establishes for the real kd-tree on every run (a/b = (1 + 1e-12)^2) *)
+(* the same for a tree that is only optimal up to the slack (a/b, c) on squared distances -- the form the
+   correspondence establishes for the real kd-tree on every run (binary64 trees: a/b = (1 + 1e-12)^2, c = 0;
+   binary32 trees: a/b = (1 + 1e-5)^2, c = (2^-10 m)^2) *)
 Theorem C02_nn_is_nearest_or_fill_tol_if :
   forall (V D : Type) (veqb : V -> V -> bool) (vzero vone : V),
     veqb vzero vzero = true -> veqb vone vzero = false ->
-  forall (a b r2 : Z) (d2 : nat -> nat -> Z) (tshape : list Z) (dtype : D) (multi : bool) (k : nat)
+  forall (a b c r2 : Z) (d2 : nat -> nat -> Z) (tshape : list Z) (dtype : D) (multi : bool) (k : nat)
          (rows : list (list V)) (mrows : option (list (list bool))) (vin vout : list bool)
          (fill : option V) (sentinel : V),
     wf_input multi k rows mrows vin ->
     veqb sentinel sentinel = true ->
     (fill = None -> forall s, valid_at vin s -> forall v, In v (nth s rows []) -> veqb v sentinel = false) ->
   forall knn : list nat -> nat -> nat,
-    (forall t, valid_at vout t -> knn_spec_tol a b r2 (d2 t) (compact vin) (knn (compact vin) t)) ->
+    (forall t, valid_at vout t -> knn_spec_tol a b c r2 (d2 t) (compact vin) (knn (compact vin) t)) ->
   forall t, t < length vout ->
     let kk := if multi then k else 1 in
     let cell := nth t (o_cells (resample_nn veqb vzero vone knn tshape dtype multi k rows mrows vin vout fill sentinel))
                     ([], []) in
     (exists s, valid_at vout t /\ valid_at vin s /\
-        (forall s', valid_at vin s' -> (b * d2 t s <= a * d2 t s')%Z) /\ (b * d2 t s <= a * r2)%Z /\
+        (forall s', valid_at vin s' -> (b * d2 t s <= a * d2 t s' + c)%Z) /\ (b * d2 t s <= a * r2 + c)%Z /\
         fst cell = nth s rows [] /\
         snd cell = match mrows with Some mm => nth s mm [] | None => repeat false kk end)
     \/
-    ((~ valid_at vout t \/ forall s', valid_at vin s' -> (b * r2 <= a * d2 t s')%Z) /\
+    ((~ valid_at vout t \/ forall s', valid_at vin s' -> (b * r2 <= a * d2 t s' + c)%Z) /\
      (forall f, fill = Some f -> fst cell = repeat f kk) /\
      (fill = None -> snd cell = repeat true kk)).
 Proof. exact (@main_tol). Qed.
@@ -205,24 +206,24 @@ Print Assumptions C02_shape_size_if.
    (soundness is what the tie needs); the brute-force reference meets the exact contract (so H_knn is satisfiable),
    reports a neighbour exactly when one is strictly inside the radius, and returns the lowest index among ties;
    the exact contract implies every relaxed one. *)
-Theorem C02_accept_sound : forall a b r2 d cands i,
-  accept a b r2 d cands i = true -> knn_spec_tol a b r2 d cands i.
+Theorem C02_accept_sound : forall a b c r2 d cands i,
+  accept a b c r2 d cands i = true -> knn_spec_tol a b c r2 d cands i.
 Proof. exact accept_sound. Qed.
 Print Assumptions C02_accept_sound.
-Theorem C02_accept_list_sound : forall a b r2 d cands i,
-  accept_list a b r2 (map d cands) i = true -> knn_spec_tol a b r2 d cands i.
+Theorem C02_accept_list_sound : forall a b c r2 d cands i,
+  accept_list a b c r2 (map d cands) i = true -> knn_spec_tol a b c r2 d cands i.
 Proof. exact accept_list_sound. Qed.
 Print Assumptions C02_accept_list_sound.
 (* the form the correspondence executes (Model/C02_run.v): exact integer coordinates [srcs], [tf] of the implementation's
    own cartesian floats, with a coarse-coordinate shortcut; it implies the contract for the exact squared distances *)
-Theorem C02_accept_fast_sound : forall a b r2 u tf srcs i,
-  accept_fast a b r2 u tf (with_coarse u srcs) i = true ->
-  knn_spec_tol a b r2 (fun s => sqd tf (nth s srcs (0, 0, 0)%Z)) (seq 0 (length srcs)) i.
+Theorem C02_accept_fast_sound : forall a b c r2 u tf srcs i,
+  accept_fast a b c r2 u tf (with_coarse u srcs) i = true ->
+  knn_spec_tol a b c r2 (fun s => sqd tf (nth s srcs (0, 0, 0)%Z)) (seq 0 (length srcs)) i.
 Proof. exact accept_fast_contract. Qed.
 Print Assumptions C02_accept_fast_sound.
-Theorem C02_accept_complete : forall a b r2 d cands i,
-  knn_spec_tol a b r2 d cands i -> accept a b r2 d cands i = true.
-Proof. intros a b r2 d cands i. apply accept_iff. Qed.
+Theorem C02_accept_complete : forall a b c r2 d cands i,
+  knn_spec_tol a b c r2 d cands i -> accept a b c r2 d cands i = true.
+Proof. intros a b c r2 d cands i. apply accept_iff. Qed.
 Print Assumptions C02_accept_complete.
 Theorem C02_brute_force_meets_contract : forall r2 d cands, knn_spec r2 d cands (nearest r2 d cands).
 Proof. exact nearest_spec. Qed.
@@ -235,9 +236,9 @@ Theorem C02_brute_force_lowest_index_on_ties : forall r2 d cands, nearest r2 d c
   forall j, j < nearest r2 d cands -> (d (nth (nearest r2 d cands) cands 0%nat) < d (nth j cands 0%nat))%Z.
 Proof. exact nearest_first_min. Qed.
 Print Assumptions C02_brute_force_lowest_index_on_ties.
-Theorem C02_exact_contract_implies_relaxed : forall r2 d cands a b i,
-  (0 < b <= a)%Z -> (0 <= r2)%Z -> (forall s, In s cands -> (0 <= d s)%Z) ->
-  knn_spec r2 d cands i -> knn_spec_tol a b r2 d cands i.
+Theorem C02_exact_contract_implies_relaxed : forall r2 d cands a b c i,
+  (0 < b <= a)%Z -> (0 <= c)%Z -> (0 <= r2)%Z -> (forall s, In s cands -> (0 <= d s)%Z) ->
+  knn_spec r2 d cands i -> knn_spec_tol a b c r2 d cands i.
 Proof. exact knn_spec_weaken. Qed.
 Print Assumptions C02_exact_contract_implies_relaxed.
 
@@ -315,8 +316,8 @@ Example C02_ex_no_valid_source :
 Proof. vm_compute. reflexivity. Qed.
 (* the acceptance test at the boundary: distance exactly r is accepted either way; the slack used for float64 trees *)
 Example C02_ex_accept_boundary :
-  accept 1 1 25 (fun s => nth s [25; 30] 0)%Z [0; 1] 0 = true /\ accept 1 1 25 (fun s => nth s [25; 30] 0)%Z [0; 1] 2 = true /\
-  accept 1 1 25 (fun s => nth s [24; 30] 0)%Z [0; 1] 2 = false /\ accept 1 1 25 (fun s => nth s [24; 30] 0)%Z [0; 1] 1 = false /\
+  accept 1 1 0 25 (fun s => nth s [25; 30] 0)%Z [0; 1] 0 = true /\ accept 1 1 0 25 (fun s => nth s [25; 30] 0)%Z [0; 1] 2 = true /\
+  accept 1 1 0 25 (fun s => nth s [24; 30] 0)%Z [0; 1] 2 = false /\ accept 1 1 0 25 (fun s => nth s [24; 30] 0)%Z [0; 1] 1 = false /\
   (0 < 10 ^ 24 <= (10 ^ 12 + 1) ^ 2)%Z.
 Proof. vm_compute. repeat split; congruence. Qed.
 (* binary64 validity: bounds inclusive, one ulp outside / NaN / inf / 1e30 invalid *)
